@@ -178,7 +178,7 @@ def _r2(model, res, c, m):
 
 def _r3(model, res, m):
     site = '%s:column converters' % m.name
-    consts = guards.module_consts(m)
+    consts = guards.module_consts(m, model)
     # the alphabet constant
     alpha_names = [nm for nm, node in m.constants.items() if isinstance(node, ast.Constant) and isinstance(node.value, str) and
                    len(node.value) >= 20 and node.value.isalpha()]
@@ -345,7 +345,7 @@ def _r5(model, res, m):
 
 def _r6(model, res, m):
     f = m.functions['column_index_to_label']
-    consts = guards.module_consts(m)
+    consts = guards.module_consts(m, model)
     whiles = [n for n in walk_no_defs(f) if isinstance(n, ast.While)]
     fors = [n for n in walk_no_defs(f) if isinstance(n, ast.For)]
     site = '%s:column_index_to_label' % m.name
